@@ -290,3 +290,113 @@ def ob_whole_run_stream(nfail: int, c0: int, c1: int, c2: int, c3: int, c4: int,
 
 
 WR_DEEP = B(False, True)
+
+
+# ----------------------------------------------------------------------------------------------- a run RESUMED with work in it
+class _ResumeW(Workflow):
+    """3 jobs fan out to a 2-worker step (one waits for capacity); life 1: job i takes dur[i] (1000 = hangs until the cancellation);
+    life 2 (resumed): every job takes 1 s"""
+
+    @step
+    async def start(self, ctx: Context, ev: StartEvent) -> TJob | None:
+        for i in range(3):
+            ctx.send_event(TJob(i=i))
+        return None
+
+    @step(num_workers=2)
+    async def work(self, ctx: Context, ev: TJob) -> TDone:
+        import asyncio
+
+        await asyncio.sleep(self.dur[ev.i] if self.life[0] == 1 else 1)
+        return TDone(i=ev.i)
+
+    @step
+    async def join(self, ctx: Context, ev: TDone) -> StopEvent | None:
+        got = ctx.collect_events(ev, [TDone] * 3)
+        if got is None:
+            return None
+        return StopEvent(result=sorted(e.i for e in got))
+
+
+@obligation(quick=200, thorough=400, partitions_quick=[f"c == {c}" for c in (1, 2, 3)], partitions_thorough=[f"c == {c} and d0 == {d}" for c in (1, 2, 3) for d in (0, 1, 2, 3)],
+            what="a run cancelled mid-way (invocations in flight and queued), context through to_dict -> JSON -> Context.from_dict, RESUMED through the "
+                 "real run() start-up (rewind_in_progress + process_command): on the resumed run's published stream every (step, worker) "
+                 "alternates RUNNING / NOT_RUNNING starting with RUNNING — the invocations restarted by the resume are announced RUNNING like "
+                 "new ones — and the run completes with all results",
+            bounds={"jobs": 3, "workers": 2, "first-life durations": "0..2 or hanging, per job", "cancel at": "1..3"})
+def ob_resumed_run_stream(c: int, d0: int, d1: int, d2: int) -> bool:
+    """
+    pre: 1 <= c <= 3 and 0 <= d0 <= 3 and 0 <= d1 <= 3 and 0 <= d2 <= 3
+    post: _
+    """
+    import asyncio
+    import json
+
+    import workflows.plugins.basic as basic_mod
+    import workflows.runtime.types.step_function as sf_mod
+    from vlib.h_idle import FakeTime
+    from vlib.miniloop import MiniLoop
+    from workflows.errors import WorkflowCancelledByUser
+
+    c, d0, d1, d2 = conc(c, 1, 3), conc(d0, 0, 3), conc(d1, 0, 3), conc(d2, 0, 3)
+    life = [1]
+    loop = MiniLoop()
+    out: dict = {}
+    seen: list = []
+
+    def mk():
+        w = _ResumeW(timeout=None, runtime=basic_mod.BasicRuntime())
+        w.life, w.dur = life, [1000 if d == 3 else d for d in (d0, d1, d2)]
+        return w
+
+    async def main():
+        h1 = mk().run(run_id="r1")
+        await asyncio.sleep(c)
+        await h1.cancel_run()
+        try:
+            out["first"] = ("finished", await h1)
+            return
+        except WorkflowCancelledByUser:
+            out["first"] = ("cancelled", None)
+        snap = json.loads(json.dumps(h1.ctx.to_dict()))
+        life[0] = 2
+        w2 = mk()
+        h2 = w2.run(ctx=Context.from_dict(w2, snap), run_id="r2")
+
+        async def watch():
+            async for e in h2.stream_events(expose_internal=True):
+                seen.append(e)
+
+        wt = asyncio.ensure_future(watch())
+        try:
+            out["second"] = ("result", await asyncio.wait_for(h2, timeout=30))
+        except asyncio.TimeoutError:
+            out["second"] = ("HUNG", None)
+            wt.cancel()
+            return
+        await wt
+
+    saved = (basic_mod.time, sf_mod.time)
+    basic_mod.time = sf_mod.time = FakeTime(loop)
+    try:
+        loop.run_until_complete(main())
+    finally:
+        basic_mod.time, sf_mod.time = saved
+    if out.get("first", ("", None))[0] == "finished":
+        return out["first"][1] == [0, 1, 2]            # everything was done before the cancellation: nothing to resume
+    if out.get("second") != ("result", [0, 1, 2]):
+        return False
+    open_: dict = {}
+    for e in seen:
+        if not isinstance(e, StepStateChanged):
+            continue
+        key = (e.name, e.worker_id)
+        if e.step_state == StepState.RUNNING:
+            if open_.get(key):
+                return False
+            open_[key] = True
+        elif e.step_state == StepState.NOT_RUNNING:
+            if not open_.get(key):
+                return False                          # NOT_RUNNING for an invocation that was never announced RUNNING
+            open_[key] = False
+    return True
